@@ -286,6 +286,41 @@ fn c03_client_auth_frame_decoding() {
     core::mem::forget(r);
 }
 
+/// C03: the key-material auth header body (postcard, after base64) decodes to exactly the
+/// key, signature and suffix the client sent: 32 key bytes, length byte 64, 64 signature bytes,
+/// 16 suffix bytes; only valid curve points are accepted as claimed identity.
+#[kani::proof]
+#[kani::unwind(70)]
+#[kani::stub(vs::curve25519_dalek::edwards::CompressedEdwardsY::decompress, vs::decompress_oracle)]
+#[kani::stub(n0_error::backtrace_enabled, vstubs::backtrace_disabled)]
+fn c03_key_material_header_decoding() {
+    let body: [u8; 113] = kani::any();
+    let r: Result<KeyMaterialClientAuth, postcard::Error> = postcard::from_bytes(&body);
+    let mut key = [0u8; 32];
+    key.copy_from_slice(&body[..32]);
+    match &r {
+        Ok(a) => {
+            assert!(vs::oracle_answer(&key) == Some(true));
+            assert!(*a.public_key.as_bytes() == key);
+            assert!(body[32] == 64);
+            let mut k = 0;
+            while k < 64 {
+                assert!(a.signature[k] == body[33 + k]);
+                k += 1;
+            }
+            let mut k = 0;
+            while k < 16 {
+                assert!(a.key_material_suffix[k] == body[97 + k]);
+                k += 1;
+            }
+        }
+        Err(_) => assert!(vs::oracle_answer(&key) != Some(true) || body[32] != 64),
+    }
+    kani::cover!(r.is_ok());
+    kani::cover!(r.is_err());
+    core::mem::forget(r);
+}
+
 // ------------------------------------------------------------------ C07 admission segment
 
 #[derive(Debug)]
